@@ -1061,27 +1061,31 @@ _dispatch_operation_create(dispatch_op_direction_t direction,
 	// that can only be NULL if atomic_flags are set rdar://problem/8362514
 	int err = _dispatch_io_get_error(NULL, channel, false);
 	if (err || !length) {
-		// A zero-length operation on an open channel has no operation object
-		// to hold the fd_entry: hold it until the handler has run, so that the
-		// cleanup handler cannot run first
-		dispatch_fd_entry_t fd_entry = err ? NULL : channel->fd_entry;
-		if (fd_entry) {
-			_dispatch_fd_entry_retain(fd_entry);
-		}
 		_dispatch_io_data_retain(data);
 		_dispatch_retain(queue);
 		_dispatch_retain(channel);
 		dispatch_async(channel->barrier_queue, ^{
+			// There is no operation object to hold the fd_entry: hold it
+			// until the handler has run, so that the cleanup handler cannot
+			// run first. channel->fd_entry is only stable on the barrier
+			// queue; it is NULL once the channel has been closed or stopped
+			dispatch_fd_entry_t fd_entry = channel->fd_entry;
+			if (fd_entry) {
+				_dispatch_fd_entry_retain(fd_entry);
+			}
+			// a close that was called before this operation was scheduled
+			// has taken effect by now
+			int op_err = _dispatch_io_get_error(NULL, channel, false);
 			dispatch_async(queue, ^{
 				dispatch_data_t d = data;
-				if (direction == DOP_DIR_READ && err) {
+				if (direction == DOP_DIR_READ && op_err) {
 					d = NULL;
-				} else if (direction == DOP_DIR_WRITE && !err) {
+				} else if (direction == DOP_DIR_WRITE && !op_err) {
 					d = NULL;
 				}
 				_dispatch_channel_debug("IO handler invoke: err %d", channel,
-						err);
-				handler(true, d, err);
+						op_err);
+				handler(true, d, op_err);
 				if (fd_entry) {
 					_dispatch_fd_entry_release(fd_entry);
 				}
@@ -1167,6 +1171,12 @@ _dispatch_operation_enqueue(dispatch_operation_t op,
 	int err = _dispatch_io_get_error(NULL, op->channel, false);
 	if (err) {
 		dispatch_io_handler_t handler = op->handler;
+		// The operation never joins the fd_entry: hold the entry until the
+		// handler has run, so that the cleanup handler cannot run first
+		dispatch_fd_entry_t fd_entry = op->channel->fd_entry;
+		if (fd_entry) {
+			_dispatch_fd_entry_retain(fd_entry);
+		}
 		dispatch_async(op->op_q, ^{
 			dispatch_data_t d = data;
 			if (direction == DOP_DIR_READ && err) {
@@ -1175,6 +1185,9 @@ _dispatch_operation_enqueue(dispatch_operation_t op,
 				d = NULL;
 			}
 			handler(true, d, err);
+			if (fd_entry) {
+				_dispatch_fd_entry_release(fd_entry);
+			}
 			_dispatch_io_data_release(data);
 		});
 		_dispatch_op_debug("release -> %d, err %d", op, op->do_ref_cnt, err);
